@@ -4,7 +4,7 @@ from harness import histprop, gens2, ops2
 RULE = ("seeded histories (gens2.gen_c16 / gen_c16_bool): a dense HEALPix array (float32/64, int; random UNSEEN / "
         "sentinel pattern; NEST or RING) is converted to a sparse map and back; generate_healpix_map in both orderings "
         "(and with nside=, reduction=) is compared with the map's values; updates through nest=False and position "
-        "addressing; all read paths compared after every step; HEALPix explicit files written and read back; "
+        "addressing; all read paths compared after every step; HEALPix explicit files (healsparse's writer) and implicit NEST/RING files with one or several elements per row (written with astropy) read back; "
         "interpolate_pos compared with the weighted mean of hpgeom's neighbours computed by the model (both validity "
         "rules); non-trivial = a conversion followed by a comparison, distinct by SHA-256")
 
